@@ -72,7 +72,15 @@ def compare_with_twin(ctx, res, w):
                               dict(w, decl=x['decl'], decorated=repr(ox)[:300], twin=repr(oy)[:300]))
                 break
             if ox.kind == 'ret':
-                if ox.value is not be.get('returned'):
+                got = ox.value
+                if D.decls[x['decl']]['kind'] == 'property_inner_sub':
+                    # the user's own descriptor wraps what the getter returned - in the twin exactly the same way
+                    ctx.count('calls_through_a_property_subclass')
+                    if not (isinstance(got, dict) and list(got) == ['by_descriptor']) or not (isinstance(oy.value, dict) and list(oy.value) == ['by_descriptor']):
+                        ctx.violation('an intercepted property of a property SUBCLASS no longer goes through the subclass\'s own __get__', dict(w, decl=x['decl']))
+                        break
+                    got = got['by_descriptor']
+                if got is not be.get('returned'):
                     ctx.violation('intercepted call did not return the very object the wrapped body returned', dict(w, decl=x['decl']))
                 if not teq(ox.value, oy.value):
                     ctx.violation('intercepted call returned another value than in the twin', dict(w, decl=x['decl']))
